@@ -295,7 +295,7 @@ func checkMain(args []string) int {
 			return 2
 		}
 	}
-	return report(prop, tier, seed, sel, results, scratch, t0, only != "")
+	return report(prop, tier, seed, sel, results, scratch, t0, only != "" || os.Getenv("ZX_REPO") != "")
 }
 
 type harnessSummary struct {
